@@ -251,7 +251,7 @@ theorem walk_lasts (root : Str) : ∀ (ks : List RK) (st : List (Str × Bool)) (
         · apply List.map_congr_left
           intro q' _
           exact mkElem_last root st q'
-        · simp only [Function.comp, mkElem_last]
+        · simp only [mkElem_last]
     | end_ rep =>
       cases st with
       | nil => unfold walk at h; cases h
@@ -298,5 +298,112 @@ theorem renderAll_paths (root : Str) (tops : List Str) :
                   rw [← hx]
           simp only [List.map_cons, hp]
           exact this.cons_cons _
+
+end Pyxv.Binds
+
+namespace Pyxv.Binds
+open Pyxv
+
+/-! ### `split()`, `strip()`, `split("::")` -/
+
+theorem splitWsAux_dropWhile (s : Str) : splitWsAux [] (s.dropWhile pyIsSpace) = splitWsAux [] s := by
+  induction s with
+  | nil => rfl
+  | cons c cs ih =>
+    by_cases hc : pyIsSpace c = true
+    · rw [List.dropWhile_cons_of_pos hc, ih]
+      conv => rhs; unfold splitWsAux
+      simp [hc]
+    · rw [List.dropWhile_cons_of_neg hc]
+
+theorem splitWsAux_spaces (ws : Str) (hws : ∀ c ∈ ws, pyIsSpace c = true) :
+    ∀ cur, splitWsAux cur ws = if cur.isEmpty then [] else [cur.reverse] := by
+  induction ws with
+  | nil => intro cur; unfold splitWsAux; rfl
+  | cons c cs ih =>
+    intro cur
+    have hc : pyIsSpace c = true := hws c (List.mem_cons_self ..)
+    have ih' := ih (fun x hx => hws x (List.mem_cons_of_mem _ hx))
+    unfold splitWsAux
+    simp only [hc, if_true]
+    rw [ih' []]
+    cases cur <;> simp
+
+theorem splitWsAux_append_spaces (ws : Str) (hws : ∀ c ∈ ws, pyIsSpace c = true) :
+    ∀ (a cur : Str), splitWsAux cur (a ++ ws) = splitWsAux cur a := by
+  intro a
+  induction a with
+  | nil =>
+    intro cur
+    rw [List.nil_append, splitWsAux_spaces ws hws cur]
+    unfold splitWsAux
+    rfl
+  | cons c cs ih =>
+    intro cur
+    rw [List.cons_append]
+    unfold splitWsAux
+    rw [ih, ih]
+
+theorem rstrip_decomp (s : Str) : ∃ ws, (∀ c ∈ ws, pyIsSpace c = true) ∧ s = rstrip s ++ ws := by
+  refine ⟨(s.reverse.takeWhile pyIsSpace).reverse, ?_, ?_⟩
+  · intro c hc
+    rw [List.mem_reverse] at hc
+    have := List.all_takeWhile (p := pyIsSpace) (l := s.reverse)
+    exact List.all_eq_true.mp this c hc
+  · unfold rstrip
+    rw [← List.reverse_append, List.takeWhile_append_dropWhile, List.reverse_reverse]
+
+theorem splitWs_strip (s : Str) : splitWs (strip s) = splitWs s := by
+  unfold splitWs strip
+  obtain ⟨ws, hws, hd⟩ := rstrip_decomp (lstrip s)
+  have h1 : splitWsAux [] (rstrip (lstrip s)) = splitWsAux [] (lstrip s) := by
+    conv => rhs; rw [hd]
+    rw [splitWsAux_append_spaces ws hws]
+  rw [h1]
+  exact splitWsAux_dropWhile s
+
+theorem toSnakeCase_strip (s : Str) : toSnakeCase (strip s) = toSnakeCase s := by
+  unfold toSnakeCase
+  rw [splitWs_strip]
+
+theorem splitOn2_none (d : Char) : ∀ (h : Str), (∀ c ∈ h, c ≠ d) → splitOn2 d h = [h] := by
+  intro h
+  induction h with
+  | nil => intro _; rfl
+  | cons c1 t ih =>
+    intro hc
+    cases t with
+    | nil => rfl
+    | cons c2 cs =>
+      have h1 : c1 ≠ d := hc c1 (List.mem_cons_self ..)
+      have iht := ih (fun x hx => hc x (List.mem_cons_of_mem _ hx))
+      unfold splitOn2
+      rw [if_neg (fun h => h1 h.1), iht]
+
+theorem splitOnChar_none (d : Char) : ∀ (h : Str), (∀ c ∈ h, c ≠ d) → splitOnChar d h = [h] := by
+  intro h
+  induction h with
+  | nil => intro _; rfl
+  | cons c t ih =>
+    intro hc
+    have h1 : c ≠ d := hc c (List.mem_cons_self ..)
+    have iht := ih (fun x hx => hc x (List.mem_cons_of_mem _ hx))
+    unfold splitOnChar
+    rw [iht]
+    simp [h1]
+
+theorem isInfix_dcolon_none : ∀ (h : Str), (∀ c ∈ h, c ≠ ':') → isInfix "::".toList h = false := by
+  intro h
+  induction h with
+  | nil => intro _; rfl
+  | cons c t ih =>
+    intro hc
+    have h1 : c ≠ ':' := hc c (List.mem_cons_self ..)
+    have iht := ih (fun x hx => hc x (List.mem_cons_of_mem _ hx))
+    unfold isInfix
+    rw [iht, Bool.or_false]
+    show startsWith (c :: t) [':', ':'] = false
+    unfold startsWith
+    simp [h1]
 
 end Pyxv.Binds
